@@ -67,9 +67,22 @@ var Entries = []Entry{
 	{"errors.AssertionFailedf%w", false, false},
 	{"errutil.NewWithDepthf%w", true, false},
 	{"errors.Wrapf%w", false, false},
+	{"errors.WithStack(stacked)", false, false},
+	{"errors.WithStackDepth(stacked)", true, false},
+	{"errors.Wrap(stacked,empty)", false, false},
+	{"errors.WrapWithDepth(stacked,empty)", true, false},
+	{"errors.Wrap(empty)", false, false},
+	{"errors.WrapWithDepth(empty)", true, false},
+	{"errutil.WrapWithDepth(empty)", true, false},
 }
 
 var base = stderrors.New("base")
+
+// stackedBase builds, in a function of its own, an error whose outermost layer
+// already is a stack annotation.
+//
+//go:noinline
+func stackedBase() error { return errors.New("stacked") }
 
 // L0 calls entry number which with depth d. It returns the error built (nil
 // for pure domain functions) and the domain computed (empty for stack functions).
@@ -80,6 +93,10 @@ func L0(v *sym.V, which int, d int) (error, errors.Domain) {
 	mode := 1 // runtime.Callers
 	if e.Domain {
 		mode = 2 // runtime.Caller
+	}
+	var stacked error
+	if len(e.Name) > 9 && e.Name[len(e.Name)-9:] == "(stacked)" || len(e.Name) > 15 && e.Name[len(e.Name)-15:] == "(stacked,empty)" {
+		stacked = stackedBase() // built before the hook is armed: its own stack capture is not under test
 	}
 	v.CallerHook("skip@"+e.Name, d, mode)
 	defer v.ClearCallerHook()
@@ -168,6 +185,20 @@ func L0(v *sym.V, which int, d int) (error, errors.Domain) {
 	case "domains.Handled":
 		e := domains.Handled(base)
 		return e, domains.GetDomain(e)
+	case "errors.WithStack(stacked)":
+		return errors.WithStack(stacked), ""
+	case "errors.WithStackDepth(stacked)":
+		return errors.WithStackDepth(stacked, d), ""
+	case "errors.Wrap(stacked,empty)":
+		return errors.Wrap(stacked, ""), ""
+	case "errors.WrapWithDepth(stacked,empty)":
+		return errors.WrapWithDepth(d, stacked, ""), ""
+	case "errors.Wrap(empty)":
+		return errors.Wrap(base, ""), ""
+	case "errors.WrapWithDepth(empty)":
+		return errors.WrapWithDepth(d, base, ""), ""
+	case "errutil.WrapWithDepth(empty)":
+		return errutil.WrapWithDepth(d, base, ""), ""
 	case "errors.Newf%w":
 		return errors.Newf("m: %w", base), ""
 	case "errors.Errorf%w":
